@@ -68,13 +68,15 @@ SPEC = Spec(
          "size/capacity gauges and every Send result are diffed against the memory-queue model instantiated from the configuration AS WRITTEN "
          "(capacity = queue_size, size = written sizer of the request); then the export is released and everything must drain to size 0. "
          "queue/persistent scripts also contain: corpus cases 0-1 (head-of-line witness; Shutdown with two blocked producers), burst labels, "
-         "mid-run Shutdown (persistent: blocked contexts are ended first, no Offer afterwards), and for the persistent queue a restart "
+         "mid-run Shutdown (persistent: blocked contexts are ended first, no Offer afterwards), for the persistent queue completions with a shutdown-classified error (`done id 3` = "
+         "experr.NewShutdownErr: the size is released and blocked producers must be woken all the same), and a restart "
          "pre-phase (1/4 of the cases: an earlier life leaves 1-6 requests, optionally a stale `si` snapshot, this life may have a smaller "
          "capacity; `op restore`). pqsize (round 2/second session): the real non-blocking persistentQueue driven SEQUENTIALLY through several "
          "lives on one mock storage (8-100 ops: offer of 0-5 items, read, completion - a seventh with a shutdown error -, Shutdown, restart with "
          "or without a preceding Shutdown, with a new capacity and in a fifth of the restarts the other sizer; a third of the cases long enough "
          "for the `wi % 10 == 5` / `ri % 10 == 0` back-ups); after every op Size(), ri, wi, the in-memory and the stored dispatched list, the "
-         "stored `si` snapshot and the stored requests are diffed against Model/C02R.lean; non-trivial = some restart restored a non-zero size. "
+         "stored `si` snapshot and the stored requests are diffed against Model/C02R.lean; the storage is wrapped so that the script can make "
+         "Set(queueSizeKey) fail for a while (`op failsi`, 1/25 per op: a failing back-up must not turn a committed write into a refused Offer); non-trivial = some restart restored a non-zero size. "
          "async: the real asyncQueue (1-4 consumers) over the real memory / persistent queue in a synctest bubble; consumeFunc blocks on a "
          "per-request gate (or returns at once and the script completes the Done later, as a batcher does); labels offer/cancel/release/done/"
          "shutdown, at most one producer blocked at a time; Size(), queued ids, the SET of requests inside consumeFunc, Offer results and "
